@@ -32,7 +32,7 @@ UNARY_SELECTORS = ['selecttrue', 'selectfalse', 'selectnone', 'selectnotnone']
 OTHER = ['select-callable', 'select-expr', 'select-field', 'select-multifield', 'biselect', 'facet', 'rowlenselect', 'search', 'search-field',
          'searchcomplement', 'selectusingcontext', 'rowslice', 'head', 'tail', 'skip']
 REQUIRED = (['sel:' + s for s in ORDER_SELECTORS + RANGE_SELECTORS + VALUE_SELECTORS + UNARY_SELECTORS + OTHER] +
-            ['ragged-row-read-as-missing', 'complement', 'reference-value-none', 'reference-value-foreign-type', 'recording-predicate-rows', 'rows-are-Record-objects', 'field-given-as-a-one-element-sequence'])
+            ['ragged-row-read-as-missing', 'complement', 'reference-value-none', 'reference-value-foreign-type', 'recording-predicate-rows', 'rows-are-Record-objects', 'field-given-as-a-one-element-sequence', 'selector-called-as-a-table-method', 'selector-called-by-its-short-alias'])
 
 TYPES = {'int': int, 'str': str, 'float': float, 'bool': bool, 'NoneType': type(None), 'tuple': tuple, 'bytes': bytes}
 PREDS = {
@@ -57,6 +57,10 @@ CTX = {
     'always': lambda p, c, n: True,
     'next-shorter': lambda p, c, n: n is not None and len(n) < len(c),
 }
+
+
+ALIASES = {'selecteq': 'eq', 'selectne': 'ne', 'selectlt': 'lt', 'selectle': 'le', 'selectgt': 'gt', 'selectge': 'ge', 'selecttrue': 'true',
+           'selectfalse': 'false', 'selectnone': 'none', 'selectnotnone': 'notnone'}
 
 
 def _mk(sel, table, **kw):
@@ -112,6 +116,12 @@ def cases(ctx):
     yield _mk('search', T, args=['1'])
     yield _mk('search-field', S, field='f0', args=['an'])
     yield _mk('search-field', S, field=('f0', 'f1'), args=['^.?an'])
+    # the field by position (index 0 included), where another column would match too
+    S2 = [['code', 'note', 'n'], ['ab1', 'xx', 1], ['zz', 'ab2', 2], ['q', 'q', 'ab'], ['ab', 'ab', 3], ['', 'b', 4]]
+    for fld in (0, 1, 2, 'code', (0,), [1, 2], (0, 2)):
+        for pat_ in ('ab', '^$', 'q|1'):
+            yield _mk('search-field', S2, field=fld, args=[pat_])
+            yield _mk('searchcomplement', S2, field=fld, args=[pat_])
     yield _mk('searchcomplement', S, args=['an'])
     yield _mk('searchcomplement', S, field='f0', args=['an'])
     for q in CTX:
@@ -160,6 +170,8 @@ def cases(ctx):
             kw['args'] = [rng.choice([None, True, False])]
         elif s == 'selectisinstance':
             kw['args'] = [rng.choice(['int', 'str', 'float', 'NoneType', ('int', 'float'), 'tuple', 'bytes'])]
+        if rng.random() < 0.2:
+            kw['via'] = rng.choice(['method', 'alias', 'alias'])
         yield _mk(s, t, **kw)
     for i in range(ctx.pick(20000, 200000)):
         pool = rng.sample(gen.SCALAR_POOL, 4) + [None]
@@ -325,6 +337,14 @@ def judge(case, ctx):
                 if bool(pred(v)) != comp:
                     exp.append(r)
         fn = getattr(petl, sel)
+        via = case.get('via')
+        if via:
+            # the fluent forms: etl.wrap(t).selectge(...) and the short aliases etl.wrap(t).ge(...) are the same selector
+            mname = ALIASES.get(sel, sel) if via == 'alias' else sel
+            ctx.seen('selector-called-as-a-table-method')
+            if mname != sel:
+                ctx.seen('selector-called-by-its-short-alias')
+            fn = lambda t, *a, **k: getattr(petl.wrap(t), mname)(*a, **k)      # noqa: E731
         got = _twice(lambda: fn(table, field, *_petl_args(sel, args), **kw))
         d = _diff(sel, got, exp, hdr, {'args': args, 'field': field, 'complement': comp})
         if d:
